@@ -8,6 +8,9 @@
 //   fuzz <addpath 0|1> <as2 0|1> <hex>  ParseBGPMessage under recover + watchdog; the input buffer must be unmodified;
 //                                       a returned message (also one returned WITH a non-fatal error) must survive
 //                                       String / JSON / Len / Serialize.  -> ok | err | panic ... | hang | modified-input
+//   nlri <afi> <safi> <hex>             NLRIFromSlice of the family -> ok <Len> <labels|-> <rd|-> <bits> <octets|-> <re-serialised> | err
+//   mknlri <afi> <safi> <labels|-> <rd|-> <bits> <address>   the NLRI constructors of the core families, Serialize, Len, and
+//                                       the result parsed back -> ok <hex> <Len> <String> || <String of the parsed>|<as for nlri>
 //   MSG = (update (PFX...) (ATTR...) (PFX...)) | (keepalive) | (notification c s b...) | (refresh afi dm safi)
 //   PFX = (id len o...)   ATTR = (origin v) | (aspath (t m...)...) | (nexthop a b c d) | (med v) | (lp v) | (atomic)
 //         | (aggregator asn a b c d) | (comms c...) | (originator a b c d) | (cluster (a b c d)...) | (unknown flags typ b...)
@@ -310,6 +313,51 @@ func fuzz(addpath, as2 bool, b []byte) string {
 	}
 }
 
+// describeNLRI renders a core-family NLRI as "<Len> <labels|-> <rd hex|-> <bits> <prefix octets hex|-> <re-serialised hex|reser-err>"
+func describeNLRI(n bgp.NLRI) string {
+	labels, rd := "-", "-"
+	var pfx netip.Prefix
+	ls := func(l bgp.MPLSLabelStack) string {
+		if len(l.Labels) == 0 {
+			return "-"
+		}
+		var o []string
+		for _, x := range l.Labels {
+			o = append(o, fmt.Sprint(x))
+		}
+		return strings.Join(o, ",")
+	}
+	switch v := n.(type) {
+	case *bgp.IPAddrPrefix:
+		pfx = v.Prefix
+	case *bgp.LabeledIPAddrPrefix:
+		pfx, labels = v.Prefix, ls(v.Labels)
+	case *bgp.LabeledVPNIPAddrPrefix:
+		pfx, labels = v.Prefix, ls(v.Labels)
+		if b, err := v.RD.Serialize(); err == nil {
+			rd = hex.EncodeToString(b)
+		}
+	default:
+		// any other family: whatever the decoder hands back must survive the things callers do with an NLRI
+		_ = n.String()
+		_, _ = json.Marshal(n)
+		re := "reser-err"
+		if b, err := n.Serialize(); err == nil {
+			re = hex.EncodeToString(b)
+		}
+		return fmt.Sprintf("%d other %T %s", n.Len(), n, re)
+	}
+	oct := "-"
+	if k := (pfx.Bits() + 7) / 8; k > 0 {
+		oct = hex.EncodeToString(pfx.Addr().AsSlice()[:k])
+	}
+	re := "reser-err"
+	if b, err := n.Serialize(); err == nil {
+		re = hex.EncodeToString(b)
+	}
+	return fmt.Sprintf("%d %s %s %d %s %s", n.Len(), labels, rd, pfx.Bits(), oct, re)
+}
+
 func run(line string) (out string) {
 	defer func() {
 		if r := recover(); r != nil {
@@ -357,6 +405,90 @@ func run(line string) (out string) {
 	case "fuzz":
 		b, _ := hex.DecodeString(f[3])
 		return fuzz(f[1] == "1", f[2] == "1", b)
+	case "nlri":
+		// nlri <afi> <safi> <hex>: NLRIFromSlice of the family on the octets
+		var afi, safi int
+		fmt.Sscan(f[1], &afi)
+		fmt.Sscan(f[2], &safi)
+		b, _ := hex.DecodeString(f[3])
+		orig := append([]byte{}, b...)
+		n, err := bgp.NLRIFromSlice(bgp.NewFamily(uint16(afi), uint8(safi)), b)
+		if err != nil || n == nil {
+			return "err"
+		}
+		if !bytes.Equal(orig, b) {
+			return "modified-input"
+		}
+		return "ok " + describeNLRI(n)
+	case "nlriseeds":
+		// every NLRI inside the MP_REACH / MP_UNREACH attributes of the constructor-built seeds, serialised on its own
+		var out []string
+		all := append([]bgp.PathAttributeInterface{}, bgp.NewTestBGPUpdateMessage().Body.(*bgp.BGPUpdate).PathAttributes...)
+		all = append(all, seeds.Extra()...)
+		for _, a := range all {
+			var fam bgp.Family
+			var l []bgp.PathNLRI
+			switch v := a.(type) {
+			case *bgp.PathAttributeMpReachNLRI:
+				fam, l = bgp.NewFamily(v.AFI, v.SAFI), v.Value
+			case *bgp.PathAttributeMpUnreachNLRI:
+				fam, l = bgp.NewFamily(v.AFI, v.SAFI), v.Value
+			}
+			for _, n := range l {
+				if b, err := n.NLRI.Serialize(); err == nil {
+					out = append(out, fmt.Sprintf("%d:%d:%s", fam.Afi(), fam.Safi(), hex.EncodeToString(b)))
+				}
+			}
+		}
+		return "ok " + strings.Join(out, " ")
+	case "mknlri":
+		// mknlri <afi> <safi> <labels|-> <rd hex|-> <bits> <address hex>: the package constructors, then Serialize and Len
+		var afi, safi, bits int
+		fmt.Sscan(f[1], &afi)
+		fmt.Sscan(f[2], &safi)
+		g := strings.Fields(f[3])
+		if len(g) != 4 {
+			return "err fields"
+		}
+		fmt.Sscan(g[2], &bits)
+		ab, _ := hex.DecodeString(g[3])
+		a, ok := netip.AddrFromSlice(ab)
+		if !ok {
+			return "err address"
+		}
+		pfx := netip.PrefixFrom(a, bits)
+		var labels []uint32
+		if g[0] != "-" {
+			for _, x := range strings.Split(g[0], ",") {
+				var v uint32
+				fmt.Sscan(x, &v)
+				labels = append(labels, v)
+			}
+		}
+		var n bgp.NLRI
+		var err error
+		switch safi {
+		case 1, 2:
+			n, err = bgp.NewIPAddrPrefix(pfx)
+		case 4:
+			n, err = bgp.NewLabeledIPAddrPrefix(pfx, *bgp.NewMPLSLabelStack(labels...))
+		default:
+			rb, _ := hex.DecodeString(g[1])
+			n, err = bgp.NewLabeledVPNIPAddrPrefix(pfx, *bgp.NewMPLSLabelStack(labels...), bgp.GetRouteDistinguisher(rb))
+		}
+		if err != nil {
+			return "err construct"
+		}
+		l0 := n.Len()
+		b, err := n.Serialize()
+		if err != nil {
+			return "err serialize"
+		}
+		back := "err"
+		if n2, err := bgp.NLRIFromSlice(bgp.NewFamily(uint16(afi), uint8(safi)), b); err == nil && n2 != nil {
+			back = fmt.Sprintf("%s|%s", strings.ReplaceAll(n2.String(), " ", "_"), describeNLRI(n2))
+		}
+		return fmt.Sprintf("ok %s %d %s || %s", hex.EncodeToString(b), l0, strings.ReplaceAll(n.String(), " ", "_"), back)
 	case "rich":
 		// constructor-built attributes of every family and kind the harnesses know (the package's test UPDATE plus
 		// internal/verif/seeds): Len() before serialising equals the octets emitted, the octets parse back, and the
